@@ -291,29 +291,40 @@ MODEL_OUTSIDE = ('supports > 3 symbols; Probability wider than u8; f64 tables; r
 
 # heap-backed (Vec / Box<[_]>) model families through engine L (allocator shims in irsym): CBMC does not finish on them
 def which5(cfg, tier, seed):
-    """one job per model family (the `which` selector is concretised: parallel jobs, nothing is lost)"""
-    return [dict(which=k) for k in range(5)]
-M_HEAP = [L('c03_heap_models', 'k_c03_heap_models_{cfg}', ['u8_p3', 'u16_p3'], ['u8_p3', 'u16_p3', 'u8_p4'], unwind=24, fixes=which5, explore_cap=dict(quick=400, thorough=3000))]
+    """one job per model family (the `which` selector is concretised: parallel jobs, nothing is lost); the two direct lookup
+    constructors (which = 1, 3) additionally get one job per value of the first table entry (arg0 = p0 in 0..=2^P+1, i.e. the
+    kernel's whole input range), because every table-filling loop forks on its entry"""
+    P = int(cfg.split('_p')[1]); T = 1 << P
+    out = [dict(which=k) for k in (0, 2, 4)]
+    if tier == 'quick' and cfg != 'u8_p3': return out   # direct lookup constructors at the other configurations: thorough tier
+    for k in (1, 3):
+        out += [dict(which=k, arg0=v) for v in range(0, T + 2)]
+    return out
+M_HEAP = [L('c03_heap_models', 'k_c03_heap_models_{cfg}', ['u8_p3', 'u16_p3'], ['u8_p3', 'u16_p3', 'u8_p4'], unwind=24, fixes=which5, feas_ms=3000, explore_cap=dict(quick=400, thorough=3000))]
 
-PROPS['C03'] = dict(obligations=M_FIXED + M_UNIFORM + M_FLOAT + M_QUANT + M_HEAP, bounds=MODEL_BOUNDS, outside=MODEL_OUTSIDE,
+HEAP_BOUNDS = ('; engine L over the heap-backed families (ContiguousCategoricalEntropyModel<Vec>, ContiguousLookupDecoderModel<Vec, Box<[_]>>, NonContiguousCategoricalDecoderModel, '
+               'NonContiguousLookupDecoderModel and the conversions between them): 3 symbols, Probability u8 / u16, PRECISION 3 (4 in the thorough tier), every table with entries in 0..=2^P+1 '
+               '(valid or not), infer_last on and off, arbitrary i16 symbols, every quantile; the Rust allocator is modelled by fresh objects (never null, <= 512 bytes), freed objects become inaccessible')
+PROPS['C03'] = dict(obligations=M_FIXED + M_UNIFORM + M_FLOAT + M_QUANT + M_HEAP, bounds=MODEL_BOUNDS + HEAP_BOUNDS, outside=MODEL_OUTSIDE,
                     assumptions=['float inputs satisfy the documented preconditions (finite, non-negative, positive normal sum); stub distribution: monotone table in [0,1]'],
                     stubs=['probability::distribution::{Distribution, Inverse} implemented by a symbolic table (TableDist)'])
 
 PROPS['C05'] = dict(obligations=[K('m_conv_view', 'models', 'conv_view', tq=900), K('m_conv_symbol_table', 'models', 'conv_symbol_table', tq=900), 
-                                 L('c05_conversions', 'k_c05_conv_{cfg}', ['u8_p3', 'u16_p3'], ['u8_p3', 'u16_p3', 'u8_p4', 'u16_p4'], unwind=20, explore_cap=dict(quick=400, thorough=3000)),
+                                 L('c05_conversions', 'k_c05_conv_{cfg}', ['u8_p3', 'u16_p3'], ['u8_p3', 'u16_p3', 'u8_p4', 'u16_p4'], unwind=20, feas_ms=3000, explore_cap=dict(quick=400, thorough=3000)),
                                  # CBMC runs out of memory (> 60 GB) on the table-building conversions: attempted in the thorough tier only; engine L (c05_conversions) decides them
                                  K('m_conv_lookup', 'models', 'conv_lookup', tiers=('thorough',), mem_gb=40),
                                  K('m_conv_generic_decoder', 'models', 'conv_generic_decoder', tiers=('thorough',), mem_gb=40), K('m_conv_generic_lookup', 'models', 'conv_generic_lookup', tiers=('thorough',), mem_gb=40), K('m_lazy_vs_eager_f32_n3_p4', 'models', 'lazy_vs_eager_f32_n3_p4', tq=900),
                                  K('m_fixed_lookup_p3', 'models', 'fixed_lookup_p3', tiers=('thorough',), tt=7200, mem_gb=40), K('m_quantizer_u8_p4_sup3', 'models', 'quantizer_u8_p4_sup3', tq=1200)],
-                    bounds=MODEL_BOUNDS + '; pairwise equality of (left cumulative, probability) on a symbolic symbol and of quantile_function on a symbolic quantile', outside=MODEL_OUTSIDE,
+                    bounds=MODEL_BOUNDS + '; pairwise equality of (left cumulative, probability) on a symbolic symbol and of quantile_function on a symbolic quantile' + HEAP_BOUNDS, outside=MODEL_OUTSIDE,
                     assumptions=[], stubs=['TableDist stub distribution'])
 
 PROPS['C19'] = dict(obligations=M_FIXED + [K('m_fixed_infer_complete_p8', 'models', 'fixed_infer_complete_p8', tq=600), K('m_fixed_infer_complete_p4', 'models', 'fixed_infer_complete_p4', tq=600),
                                            K('m_uniform_rejects', 'models', 'uniform_rejects', tq=300, lib_panics='allow'),
                                            K('m_quantizer_new_rejects_u8', 'models', 'quantizer_new_rejects_u8', tq=300, lib_panics='allow'), K('m_quantizer_new_rejects_i8', 'models', 'quantizer_new_rejects_i8', tq=300, lib_panics='allow'),
                                            K('m_quantizer_new_rejects_too_wide', 'models', 'quantizer_new_rejects_too_wide', tq=300, lib_panics='allow'),
-                                           K('m_fast_f32_n2_p3_anyinput', 'models', 'fast_f32_n2_p3_anyinput', tq=900, lib_panics='allow')],
-                    bounds=MODEL_BOUNDS + '; constructor inputs UNCONSTRAINED (any bit pattern of the floats, any fixed-point table, any infer_last flag, mismatched symbol counts); a library panic is an accepted outcome',
+                                           K('m_fast_f32_n2_p3_anyinput', 'models', 'fast_f32_n2_p3_anyinput', tq=900, lib_panics='allow'),
+                                           L('c19_heap_models_reject', 'k_c03_heap_models_{cfg}', ['u16_p3'], ['u8_p3', 'u16_p3', 'u8_p4'], unwind=24, fixes=which5, feas_ms=3000, explore_cap=dict(quick=400, thorough=3000))],
+                    bounds=MODEL_BOUNDS + HEAP_BOUNDS + '; constructor inputs UNCONSTRAINED (any bit pattern of the floats, any fixed-point table, any infer_last flag, mismatched symbol counts); a library panic is an accepted outcome',
                     outside=MODEL_OUTSIDE + '; Python front end (FFI); recorded known findings are excluded by their region predicates (see known_findings.json)', assumptions=[])
 
 RG = [K('c08_range_guard_normal_u8_u16', 'rangek', 'range_guard_normal_u8_u16', tq=900), K('c08_range_guard_normal_u16_u32', 'rangek', 'range_guard_normal_u16_u32', tq=900),
